@@ -246,6 +246,14 @@ func runC07(w *World, r *Report) {
 			}
 		}
 		r.Check(ok2, "C07.validate-before-commit", "addBranch: end nodes validated when the branch carries data", addBranch.Pos(), "updateToValidateMap on the !skipData arm", "branch targets are not type-validated")
+		// ... EVERY end node: no iteration of the end-node loop moves on to the next target without registering and
+		// validating the connection start -> target (END included: it is typed with the graph's output)
+		for _, m := range []*ssa.Function{addTV, updTV} {
+			for _, c := range callsTo(addBranch, m) {
+				skips, wit := iterationSkips(addBranch, c)
+				r.Check(!skips, "C07.validate-before-commit", "addBranch: every end node passes "+m.Name(), c.Pos(), "no iteration of the end-node loop bypasses the call", "an iteration of the end-node loop can go on to the next target without "+m.Name()+" ("+wit+"): that connection (e.g. branch -> END) is neither type-checked nor given its run-time converter — int reaches END(string) and the unchecked out.(O) panics out of Invoke")
+			}
+		}
 	}
 	{
 		ws := writesOf(addNode, "nodes")
@@ -551,6 +559,60 @@ func runC07(w *World, r *Report) {
 				r.Check(guarded, "C07.converter-is-checker", fmt.Sprintf("%s: success return #%d is on the ok arm of the assertion", w.fname(ff), nok), ret.Pos(), "value returned only after v.(T) succeeded",
 					"a value can leave the run-time checker without having been asserted to the consumer's type (e.g. a nil fast path): it reaches a concretely typed node / branch condition and panics there instead of the connection reporting an ordinary 'runtime type check fail' error")
 			})
+		}
+	}
+	// the stream checker has no way round it: whatever defaultStreamConverter returns is a convert reader built in this
+	// call with the checking converter (never the incoming reader itself, never another helper's unchecked view of it)
+	{
+		f := w.Fn("compose", "defaultStreamConverter")
+		swc := w.Fn("schema", "StreamReaderWithConvert")
+		var checked func(v ssa.Value, d int) bool
+		checked = func(v ssa.Value, d int) bool {
+			if d > 8 {
+				return false
+			}
+			switch x := v.(type) {
+			case *ssa.Call:
+				if sc := staticCallee(x); sc != nil && origin(sc) == swc {
+					// the converter is a literal of this function that asserts comma-ok (checked above)
+					if len(x.Call.Args) == 2 {
+						switch l := x.Call.Args[1].(type) {
+						case *ssa.MakeClosure:
+							return l.Fn.(*ssa.Function).Parent() == f
+						case *ssa.Function:
+							return l.Parent() == f
+						}
+					}
+					return false
+				}
+				if sc := staticCallee(x); sc != nil && sc.Name() == "packStreamReader" && len(x.Call.Args) == 1 {
+					return checked(x.Call.Args[0], d+1)
+				}
+			case *ssa.Phi:
+				for _, e := range x.Edges {
+					if !checked(e, d+1) {
+						return false
+					}
+				}
+				return len(x.Edges) > 0
+			case *ssa.MakeInterface:
+				return checked(x.X, d+1)
+			case *ssa.ChangeInterface:
+				return checked(x.X, d+1)
+			}
+			return false
+		}
+		n := 0
+		instrs(f, func(in ssa.Instruction) {
+			ret, ok := in.(*ssa.Return)
+			if !ok || len(ret.Results) != 1 {
+				return
+			}
+			n++
+			r.Check(checked(ret.Results[0], 0), "C07.converter-is-checker", fmt.Sprintf("defaultStreamConverter: return #%d is the checking convert reader", n), ret.Pos(), "packStreamReader(StreamReaderWithConvert(…, checking literal))", "a reader can leave the stream checker without the checking converter in front of it (fast path): for an interface-typed consumer every reader 'already is' a stream of T, so an unassignable item is no longer reported as 'runtime type check fail' but panics in the consumer (out of Stream for a branch condition)")
+		})
+		if n == 0 {
+			r.Fail("C07.converter-is-checker", "defaultStreamConverter: returns", f.Pos(), "no single-value return found")
 		}
 	}
 	// pass-through nodes: a state handler on a node whose own type is only inferred later must be typed `any` exactly
